@@ -25,7 +25,8 @@ MetaOf(e) == [rel |-> e.rel,
               sk |-> IF e.rel = "scale" THEN e.sk ELSE 0,
               d |-> IF e.rel = "translate" THEN e.d ELSE <<0, 0>>,
               t |-> IF e.rel = "sym" THEN e.t ELSE 0,
-              big |-> e.big, touch |-> e.touch, opaque |-> e.opaque, nedges |-> e.nedges]
+              big |-> e.big, touch |-> e.touch, opaque |-> e.opaque, nedges |-> e.nedges,
+              wit |-> IF "wit" \in DOMAIN e THEN e.wit ELSE 0]
 
 Init == r \in 1..Len(Sessions) /\ l = 1 /\ BInit
 
